@@ -246,6 +246,8 @@ class Obj:
                     self.table.fmt = tables.fmt_string(b) or ""
                 elif st_[0] == "remove":
                     self.table.remove_columns(list(st_[1]))
+                elif st_[0] == "limits":
+                    self.table.fmt.set_limits(tuple(st_[1]))
                 else:
                     str(self.table.ch_text(no_color=not st_[1]))
         elif k == "table":
